@@ -121,6 +121,12 @@ EXPORT errno_t _strcpy_s_chk(char *restrict dest, rsize_t dmax,
     CHK_SRC_NULL_CLEAR("strcpy_s", src)
 
     if (unlikely(dest == src)) {
+#ifdef SAFECLIB_STR_NULL_SLACK
+        /* nothing to copy, but the slack is nulled as for any other success */
+        const rsize_t len = strnlen_s(dest, dmax);
+        if (len < dmax)
+            memset(dest + len, 0, dmax - len);
+#endif
         return RCNEGATE(EOK);
     }
 
